@@ -1415,6 +1415,9 @@ def out_scenario(c, k):
         bl += ["abf {", "  name a0", "  colvars v0", "  fullSamples 1", "  outputFreq %d" % c["abf"]["F"], "  historyFreq %d" % c["abf"]["H"], "}"]
     for b, f in c["biases"]:
         bl += ["histogram {", "  name b%d" % b, "  colvars v0", "  outputFreq %d" % f, "}"]
+    if c.get("opes"):
+        bl += ["opes_metad {", "  name o0", "  colvars v0", "  newHillFrequency %d" % c["opes"]["p"], "  barrier 5.0", "  gaussianSigma 0.5",
+               "  printTrajectoryFrequency %d" % c["opes"]["q"], "  outputFreq %d" % c["opes"]["F"], "}"]
     if c.get("meta"):
         bl += ["metadynamics {", "  name m0", "  colvars v0", "  hillWeight 0.125", "  hillWidth 1.0", "  newHillFrequency %d" % c["meta"]["h"],
                "  outputFreq %d" % c["meta"]["F"], "  writeHillsTrajectory on", "  keepFreeEnergyFiles on"] + \
@@ -1538,6 +1541,30 @@ def check_out_case(run, c, k, impl_lines, scratch, model):
                           ([r_[0] for r_ in recs], [w_[0] for w_ in wantrec]), replay)
         elif any(not close(a[1], b[1], OTOL) for a, b in zip(recs, wantrec)):
             run.violation("outfiles:hills-traj-centres", "hills trajectory %s, deposited hills %s" % (recs[:6], wantrec[:6]), replay)
+    if c.get("opes"):
+        # OPES: the .misc.traj and .kernels.dat files are buffered record files written with the bias's output files; after
+        # the run they hold one record per recorded step, stamped with the time step*dt/1000, in increasing order
+        dt = 1.0
+        for suffix, fq, sig in ((".misc.traj", c["opes"]["q"], "misc"), (".kernels.dat", c["opes"]["p"], "kernels")):
+            fp_ = os.path.join(scratch, "c%ds0.colvars.o0%s" % (k, suffix))
+            recs = []
+            if os.path.exists(fp_):
+                for ln in open(fp_):
+                    t = ln.split()
+                    if t and not t[0].startswith("#"):
+                        recs.append((int(round(float(t[0]) * 1000.0 / dt)), float(t[1])))
+            run.dist("oracle:opes-" + sig)
+            steps_ = [r_[0] for r_ in recs]
+            if any(b_ <= a_ for a_, b_ in zip(steps_, steps_[1:])):
+                run.violation("outfiles:opes-repeated-step", "the OPES %s file has records for the steps %s: a step evaluated twice (run boundary) "
+                              "is recorded%s twice" % (suffix, steps_, " and its kernel deposited" if sig == "kernels" else ""), replay)
+                continue
+            if any(st_ % fq for st_ in steps_) or any(st_ not in xs_by_it for st_ in steps_):
+                run.violation("outfiles:opes-steps", "OPES %s records at steps %s, frequency %d over the steps %s" % (suffix, steps_, fq, dedup_its), replay)
+            elif any(not close(x_, float(xs_by_it[st_]), OTOL) for st_, x_ in recs):
+                run.violation("outfiles:opes-values", "OPES %s records %s do not carry the variable's value of their step" % (suffix, recs[:5]), replay)
+            elif sig == "misc" and steps_ != [i for i in dedup_its if i % fq == 0]:
+                run.violation("outfiles:opes-steps", "OPES %s records at steps %s, frequency %d over the steps %s" % (suffix, steps_, fq, dedup_its), replay)
     if c.get("abf"):
         # the history files get one block per write at a multiple of historyFreq (not twice for one step)
         H = c["abf"]["H"]
@@ -1632,6 +1659,9 @@ def gen_out_case(r, tier):
     elif u < 0.6:
         F = r.choice([1, 2, 3])
         c["abf"] = {"F": F, "H": F * r.choice([1, 2, 3])}
+        c["biases"] = []
+    elif u < 0.8:
+        c["opes"] = {"p": r.choice([1, 2, 3]), "q": r.choice([1, 2, 3]), "F": r.choice([0, 2, 3])}
         c["biases"] = []
     return c
 
